@@ -230,6 +230,7 @@ void reb_read_simulationarchive_from_stream_with_messages(struct reb_simulationa
             for(int64_t i=0;i<nblobsmax;i++){
                 struct reb_binary_field field = {0};
                 sa->offset[i] = ftell(sa->inf);
+                sa->t[i] = t0; // A snapshot without a time field was taken at the time of the first snapshot.
                 int blob_finished = 0;
                 do{
                     size_t r1 = fread(&field,sizeof(struct reb_binary_field),1,sa->inf);
